@@ -174,6 +174,10 @@ def cells(tier, seed):
     for gid in order:
         for k in cats:
             yield {"graph": gid, "cat": k, "tier": "quick" if gid in GR.ORDER5 else tier}
+    # the BayesianProblem route (constructor data + set_data calls) over the same graphs: one cell per (graph, catalogue)
+    for gid in order:
+        for k in cats:
+            yield {"graph": gid, "cat": k, "tier": tier, "route": "BayesianProblem"}
     # nested / sequential model building: one cell per (graph, catalogue, variable kept free in stage 1)
     for gid in order:
         for k in cats:
@@ -255,6 +259,40 @@ def hist_str(history):
     return " ; ".join("%s(%s)" % (m, ",".join(o)) for m, o in history) or "<joint>"
 
 
+def ordered_partitions(F):
+    """Every ordered set partition of the tuple F (sequence of disjoint non-empty blocks covering F)."""
+    F = tuple(F)
+    if not F:
+        yield ()
+        return
+    for r in range(1, len(F) + 1):
+        for S in itertools.combinations(F, r):
+            rest = tuple(n for n in F if n not in S)
+            for tail in ordered_partitions(rest):
+                yield (S,) + tail
+
+
+def problem_partitions(F, tier):
+    """Groupings of the fixed set F into conditioning steps of the BayesianProblem route.
+
+    thorough: every ordered set partition; quick: the coarsest one (one step), EVERY two-step partition (first block = every
+    non-empty proper subset) and the finest one (one variable per step) in the graph's order and in the reversed order."""
+    F = tuple(F)
+    if tier != "quick" or len(F) <= 1:
+        return list(ordered_partitions(F))
+    out = [(F,)]
+    for r in range(1, len(F)):
+        for S in itertools.combinations(F, r):
+            out.append((S, tuple(n for n in F if n not in S)))
+    if len(F) > 2:
+        out.append(tuple((n,) for n in F))
+        out.append(tuple((n,) for n in reversed(F)))
+    return out
+
+
+JOINT_LIKE = ("JointDistribution", "MultipleLikelihoodPosterior")
+
+
 class Explorer:
     def __init__(self, res, cell, graph=None, tag=None, nfail=None, tier=None, over=True):
         """graph: a derived (nested) graph instead of the catalogue graph of the cell; tag: facet appended to every
@@ -275,6 +313,7 @@ class Explorer:
         self.refbad = set()  # keys with a reference failure (differential not reported twice)
         self.reduced = False
         self.over_seen = set()  # (component, fixed set, parameter order) whose over-specification catalogue was enumerated
+        self.direct_cache = {}  # BayesianProblem route: frozenset(fixed) -> what the direct one-step conditioning gives
 
     # -- failure helpers --------------------------------------------------------------------
     def fail(self, sig, msg, history, **detail):
@@ -735,6 +774,185 @@ class Explorer:
                 self.judge_uniform(comp, "malformed-condition", "double:positional+keyword", acc, [k for k, _e in rej], history,
                                    "stacked view conditioned (positional %s + keyword %s)" % (sn[:p], dup), False)
 
+    # -- BayesianProblem route ---------------------------------------------------------------------
+    def direct(self, fixed):
+        """What the DIRECT route gives for this fixed set (fresh joint conditioned in one keyword step): kind of the
+        reduced object and its parameter names; None when the direct route refuses (judged by explore())."""
+        key = frozenset(fixed)
+        if key not in self.direct_cache:
+            F = tuple(n for n in self.g.free if n in key)
+            info = None
+            try:
+                _o, err = self.replay((("kw", F),) if F else ())
+                if err is None:
+                    info = {"branch": branch_of(_o), "names": list(_o.get_parameter_names())}
+            except Exception:  # noqa
+                info = None
+            self.direct_cache[key] = info
+        return self.direct_cache[key]
+
+    def explore_problem(self):
+        """cuqi.problem.BayesianProblem as one more conditioning route: BayesianProblem(*densities, **first block) followed by
+        one set_data(**block) call per further block, for every fixed set x every grouping of problem_partitions x
+        {first block in the constructor, constructor without data and every block through set_data} x {keyword order of the
+        graph, reversed}.  Every state on the way is evaluated with the oracle of every other route."""
+        free = list(self.g.free)
+        for r in range(0, len(free) + 1):
+            for F in itertools.combinations(free, r):
+                for P in problem_partitions(F, self.tier):
+                    reals = ("ctor", "set_data") if P else ("ctor",)
+                    orders = ("fwd", "rev") if any(len(B) > 1 for B in P) else ("fwd",)
+                    for real in reals:
+                        for order in orders:
+                            self.run_problem(P, real, order)
+
+    def run_problem(self, P, real, order):
+        import cuqi
+        res = self.res
+        blocks = [tuple(reversed(B)) if order == "rev" else tuple(B) for B in P]
+        first, rest = ((blocks[0], blocks[1:]) if blocks else ((), [])) if real == "ctor" else ((), blocks)
+        # facet of the signatures: which calls carried data (two or more set_data calls are one class)
+        label = "+".join((["ctor"] if first or not rest else []) + ["set_data"] * min(len(rest), 2))
+        res.count("problem:histories")
+        res.count("problem:route=%s,steps=%d" % ("ctor" if real == "ctor" else "set_data", len(blocks)))
+        _b = self.g.build(self.k)
+        _dens = [_b.factors[n] for n in self.g.data0 + self.g.free]
+        history = (("ctor", tuple(first)),)
+        res.transitions += 1
+        try:
+            _bp = cuqi.problem.BayesianProblem(*_dens, **_cp(self.vals, first))
+        except Exception as e:  # noqa
+            if self.direct(first) is None:
+                res.count("problem:refused-like-the-direct-route")
+                return
+            res.refused += 1
+            self.fail("BayesianProblem|construct|refused,route=%s" % label, "BayesianProblem(*densities, %s) raised %s: %s although "
+                      "conditioning the joint on the same variables directly succeeds" % (list(first), type(e).__name__, str(e)[:200]), history)
+            return
+        fixed = set(first)
+        ok = self.eval_problem(_bp, fixed, history, label, final=not rest)
+        for i, B in enumerate(rest):
+            if not ok:
+                return
+            before = self.direct(fixed)
+            after = self.direct(fixed | set(B))
+            history = history + (("set_data", tuple(B)),)
+            res.transitions += 1
+            try:
+                _bp.set_data(**_cp(self.vals, B))
+            except Exception as e:  # noqa
+                res.refused += 1
+                if before is None or after is None:
+                    res.count("problem:refused-like-the-direct-route")
+                elif before["branch"] not in JOINT_LIKE:
+                    # the class offers set_data only while its target is still a joint ("maybe data is already set?")
+                    res.count("problem:set_data-refused,target-already-a-single-density")
+                    res.outcomes.add("problem:set_data-refused-on:%s" % before["branch"])
+                else:
+                    self.fail("BayesianProblem|set_data|refused,route=%s" % label, "set_data(%s) raised %s: %s although the target is "
+                              "still a joint and conditioning the joint on the same variables directly succeeds"
+                              % (list(B), type(e).__name__, str(e)[:200]), history)
+                return
+            fixed |= set(B)
+            ok = self.eval_problem(_bp, fixed, history, label, final=(i == len(rest) - 1))
+        if ok:
+            res.traces += 1
+            if len(blocks) > 1 and res.sample is None:
+                res.sample = {"graph": self.g.gid, "route": "BayesianProblem", "history": [[m] + list(o) for m, o in history],
+                              "final": branch_of(_bp._target), "reference_joint_logd": self.ref}
+
+    def eval_problem(self, _bp, fixed, history, label, final):
+        """One state of the BayesianProblem route: the problem's target must be the same kind of object over the same
+        variables as the direct route gives and evaluate to the reference joint log-density; where the target is a Posterior
+        the problem's posterior / likelihood / prior accessors must give log-likelihood + log-prior + fixed contributions."""
+        res = self.res
+        route = "route=%s" % label
+        d = self.direct(fixed)
+        remaining = [n for n in self.g.free if n not in fixed]
+        res.state("%s|problem|%s" % (self.g.gid, ",".join(sorted(fixed))))
+        try:
+            _t = _bp._target
+            bt = branch_of(_t)
+            names = list(_t.get_parameter_names())
+        except Exception as e:  # noqa
+            self.fail("BayesianProblem|target|unavailable,%s" % route, "the problem's target / its parameter names: %r" % (e,), history)
+            return False
+        res.count("problem:target=" + bt)
+        what = "target of the problem is a %s over %s" % (bt, names)
+        if sorted(names) != sorted(remaining) or len(set(names)) != len(names):
+            self.fail("BayesianProblem|target|wrong-variables,%s" % route, "%s, but the variables not yet fixed are %s%s"
+                      % (what, remaining, " (direct conditioning gives a %s over %s)" % (d["branch"], d["names"]) if d else ""), history)
+            return False
+        if d is not None and bt != d["branch"]:
+            self.fail("BayesianProblem|target|wrong-type,%s" % route, "%s, but conditioning the joint directly on %s gives a %s over %s"
+                      % (what, sorted(fixed), d["branch"], d["names"]), history)
+            return False
+        if len(history) > 1 and bt in ("Posterior", "Distribution"):
+            self.reduced = True
+        nfail0 = len(res.failures)
+        out = self.call(_t.logd, **_cp(self.vals, remaining))
+        vkw = self.expect(out, self.ref, "BayesianProblem|target.logd|value,%s" % route, "BayesianProblem|target.logd|raises,%s" % route,
+                          "problem target (%s) logd(keywords)" % bt, history)
+        if out[0] == "ok":
+            res.outcomes.add("%s:problem:%s:%.10g" % (self.g.gid, bt, out[1]))
+        if names:
+            out = self.call(_t.logd, *[GR.copy_val(self.vals[n]) for n in names])
+            res.evaluations += 1
+            if out[0] != "ok":
+                self.fail("BayesianProblem|target.logd|raises-positional,%s" % route, "problem target (%s) logd(positional) raised/ill-shaped: %s"
+                          % (bt, str(out[1])[:200]), history)
+            elif not close(out[1], self.ref, RTOL) and not (vkw is not None and close(out[1], vkw, RTOL)):
+                self.fail("BayesianProblem|target.logd|value-positional,%s" % route, "problem target (%s) logd(positional) = %.15g but reference = %.15g"
+                          % (bt, out[1], self.ref), history, impl=out[1], ref=self.ref)
+        # the accessors of the class
+        try:
+            _p = _bp.posterior
+            perr = None
+        except Exception as e:  # noqa
+            _p, perr = None, e
+        res.transitions += 1
+        res.outcomes.add("problem:posterior-accessor:%s:%s" % (bt, "returned" if perr is None else "refused"))
+        if bt == "Posterior":
+            x = names[0]
+            if perr is not None:
+                self.fail("BayesianProblem|posterior|refused,%s" % route, "the target is a Posterior over %s but problem.posterior raised %s: %s"
+                          % (x, type(perr).__name__, str(perr)[:200]), history)
+            else:
+                out = self.call(_p.logd, GR.copy_val(self.vals[x]))
+                self.expect(out, self.ref, "BayesianProblem|posterior.logd|value,%s" % route, "BayesianProblem|posterior.logd|raises,%s" % route,
+                            "problem.posterior.logd", history)
+                try:
+                    _lk, _pr = _bp.likelihood, _bp.prior
+                    lname = _lk.name
+                except Exception as e:  # noqa
+                    self.fail("BayesianProblem|likelihood-prior|refused,%s" % route, "problem.likelihood / problem.prior raised %r" % (e,), history)
+                    _lk = None
+                if _lk is not None and lname in self.reffac and lname != x:
+                    o1 = self.call(_lk.logd, GR.copy_val(self.vals[x]))
+                    a1 = self.expect(o1, self.reffac[lname], "BayesianProblem|likelihood.logd|value,%s" % route,
+                                     "BayesianProblem|likelihood.logd|raises,%s" % route, "problem.likelihood[%s].logd" % lname, history)
+                    o2 = self.call(_pr.logd, GR.copy_val(self.vals[x]))
+                    a2 = self.expect(o2, self.reffac[x], "BayesianProblem|prior.logd|value,%s" % route,
+                                     "BayesianProblem|prior.logd|raises,%s" % route, "problem.prior.logd", history)
+                    fixed_contrib = sum(self.reffac[n] for n in self.reffac if n not in (x, lname))
+                    res.evaluations += 1
+                    res.count("problem:view=Posterior")
+                    if a1 is not None and a2 is not None and vkw is not None and len(res.failures) == nfail0 \
+                            and not close(vkw, a1 + a2 + fixed_contrib, RTOL):
+                        self.fail("BayesianProblem|posterior.logd|decomposition,%s" % route, "logd %.15g != loglik %.15g + logprior %.15g + "
+                                  "fixed contributions %.15g" % (vkw, a1, a2, fixed_contrib), history)
+                elif _lk is not None:
+                    self.fail("BayesianProblem|likelihood|wrong-variable,%s" % route, "problem.likelihood is named %r, not one of the "
+                              "fixed variables of the graph" % (lname,), history)
+        elif perr is None and remaining:
+            # the accessor may refuse (the target is not a Posterior); an object that is handed out must be the target's density
+            out = self.call(_p.logd, **_cp(self.vals, remaining))
+            self.expect(out, self.ref, "BayesianProblem|posterior.logd|value,%s" % route, "BayesianProblem|posterior.logd|raises,%s" % route,
+                        "problem.posterior (target is a %s) logd" % bt, history)
+        if final:
+            self.malformed(_t.logd, names, "BayesianProblem:" + bt, history)
+        return True
+
     # -- differential oracle ---------------------------------------------------------------------
     def differential(self):
         res = self.res
@@ -851,6 +1069,10 @@ def eval_cell(cell):
         return eval_named(cell)
     res = CellResult(cell)
     ex = Explorer(res, cell)
+    if cell.get("route") == "BayesianProblem":
+        ex.explore_problem()
+        res.nontrivial = ex.reduced
+        return res
     ex.explore((), set())
     ex.differential()
     res.nontrivial = ex.reduced
